@@ -26,7 +26,8 @@ def conc(cls, k):
     if cls == "float":
         return k + 0.5
     if cls == "str":
-        return "v" + "abcdefgh"[k + 1]
+        # value 0 is the EMPTY string: its statistic b'' is falsy for the reader ("partial" statistics)
+        return "" if k == 0 else ("!" if k == -1 else "v" + "abcdefgh"[k + 1])
     if cls == "ts":
         return np.datetime64("2020-01-10") + np.timedelta64(k, "D")
     raise ValueError(cls)
@@ -116,6 +117,8 @@ def eval_job(args):
             pg = case["prog"]
             if mentions_p(pg) and not dsinfo["part"]:
                 continue
+            if cls == "str" and any(-1 in a["c"] for g in pg["groups"] for a in g if a["col"] == "x"):
+                continue      # no text sorts below the empty string that stands for value 0
             filters = real_filters(pg, cls)
             sig = {"ops": sorted({a["op"] for g in pg["groups"] for a in g}), "flat": pg["flat"],
                    "groups": len(pg["groups"]), "atoms": sum(len(g) for g in pg["groups"]),
@@ -256,9 +259,9 @@ def run_filters(work, pool, cases, classes, chunk=60):
     return jobs, res
 
 
-VARIANT_CURRENT = {"NotInPrunesOnBound": True, "FlatListIsOr": False, "RowFilterSkipsPartition": True}
-VARIANT_REPAIRED = {"NotInPrunesOnBound": False, "FlatListIsOr": False, "RowFilterSkipsPartition": False}
-VARIANT_ASFOUND = {"NotInPrunesOnBound": True, "FlatListIsOr": True, "RowFilterSkipsPartition": True}
+VARIANT_CURRENT = {"NotInPrunesOnBound": True, "FlatListIsOr": False, "RowFilterSkipsPartition": True, "ZeroIsEmpty": False, "MaskedNulls": False}
+VARIANT_REPAIRED = {"NotInPrunesOnBound": False, "FlatListIsOr": False, "RowFilterSkipsPartition": False, "ZeroIsEmpty": False, "MaskedNulls": False}
+VARIANT_ASFOUND = {"NotInPrunesOnBound": True, "FlatListIsOr": True, "RowFilterSkipsPartition": True, "ZeroIsEmpty": False, "MaskedNulls": False}
 
 
 def model_check(work, rgs, progs, variant, invariants, tag):
